@@ -174,6 +174,36 @@ func init() {
 		}
 	})
 
+	// ------------------------------------------------------------------ C10.R5
+	register("C10", "R5", "K1", "reassembly reader: a part's byte reader is read directly only while it still holds at least the requested bytes, and end-of-stream is reported only after the last part (an exhausted or empty part is skipped, not mistaken for the end)", 3, func(c *Ctx) {
+		w := c.W
+		f := c.fn("types", "PartSetReader.Read")
+		if f == nil {
+			return
+		}
+		fk := funcKey(f)
+		n := 0
+		for _, call := range w.callsTo(f, "bytes#Reader.Read") {
+			n++
+			c.guards(f, call, fk+" :: read from the current part", 0, guardCmp("the current part still holds at least len(p) bytes", `psr\.reader\.Len\(\)`, ">=", `len\(p\)`))
+		}
+		c.Check(n >= 1, fk+" :: reads parts through their byte readers", w.pos(f.Pos()), fmt.Sprintf("%d direct reads", n), "no direct read found")
+		for _, r := range returnsOf(f) {
+			ret := r.(*ssa.Return)
+			if strings.HasSuffix(w.expr(ret.Results[1]), "io.EOF") {
+				c.guards(f, ret, fk+" :: report end of stream", 0, guardCmp("all parts were consumed", `psr\.i`, ">=", `len\(psr\.parts\)`))
+			}
+		}
+		// moving to the next part continues through Read itself (which skips empty parts)
+		for _, fs := range w.fieldStoresIn(f, "types", "PartSetReader", "reader") {
+			ok, _, _ := mustFollow(fs.Store, func(in ssa.Instruction) bool {
+				call, isCall := in.(*ssa.Call)
+				return isCall && staticCallee(call) == f
+			}, nil)
+			c.Check(ok, fk+" :: after switching to the next part the read is retried on it", w.ipos(fs.Store), "Read(p) again", "after switching parts the function returns without retrying the read through Read")
+		}
+	})
+
 	// ------------------------------------------------------------------ C10.R3
 	register("C10", "R3", "K1", "a proof verifies only with matching leaf hash and recomputed root; the root is recomputed only for a valid (index,total,aunts) shape", 12, func(c *Ctx) {
 		w := c.W
